@@ -61,6 +61,10 @@ CLAIMED = {
          'Static set/table agreement for CSV: every character the parser treats specially inside an unquoted field (read from the unquoted_string state) triggers quoting in the encoder, the escape writer and the parser escaped state are inverse. Necessary conditions of the CSV round trip for every string content.',
          'Decides the CSV quoting clauses; does not decide table equality after a round trip, type inference, nor the TOON pair.',
          'DESIGN.md §4 C18'),
+ 'C17': ('typestate of expected-like results over the CFG; interprocedural size-guard rule for Json index accesses; arity rule for the fixed-size streaming decoder',
+         'Static error-discipline rules over reflect/*.hpp and the expansions of all reflection macro families (driver witness structs): a conversion_result/read_result/expected is dereferenced only under a dominating success test; every j[k] on a Json parameter is under a comparison with j.size() (locally or at every caller of its helper); decode_traits<std::array<T,N>> compares the count with N and requires end_array. Quantifies over all conversion sites, i.e. every malformed shape reaching them.',
+         'Decides the listed error-discipline and arity clauses; does not decide inverse-ness or route equality of values.',
+         'DESIGN.md §4 C17'),
 }
 NOT_YET = 'check under construction in this session; no structural rule registered yet'
 NA = {}
